@@ -152,7 +152,7 @@ def _copy_entry(src, dst):
 
 class Scenario:
     """A sandbox: `tree` maps relative paths to bytes (files), None (directories), ('symlink', target) (a symbolic link; `@R@` in the
-    target is the sandbox root) or ('fifo',) (a named pipe)."""
+    target is the sandbox root), ('fifo',) (a named pipe) or ('file', content, mode) (a regular file with permission bits)."""
 
     def __init__(self, tools, config, tree, stdin=None, args=(), env=None, devmap=(), mtimes=None, stdin_file=False):
         self.tools = tools
@@ -175,6 +175,12 @@ class Scenario:
                     os.symlink(data[1].replace('@R@', self.root), p)
                 elif data[0] == 'fifo':
                     os.mkfifo(p)
+                elif data[0] == 'file':
+                    # ('file', content, mode): a regular file with these permission bits (0o755 a script, 0o644 a file that is
+                    # there but cannot be executed - also not by root, which needs one x bit)
+                    with open(p, 'wb') as fh:
+                        fh.write(data[1])
+                    os.chmod(p, data[2])
                 else:
                     raise ValueError('unknown tree entry %r' % (data,))
             else:
@@ -234,6 +240,8 @@ class Scenario:
                 env['VSHIM_DEVMAP'] = ':'.join(self.devmap)
             if fsize is not None:
                 env['VSHIM_FSIZE'] = str(int(fsize))
+            if os.environ.get('VSHIM_OFF_AT_EXIT'):         # coverage measurement runs only (tools/cov.py)
+                env['VSHIM_OFF_AT_EXIT'] = os.environ['VSHIM_OFF_AT_EXIT']
         env.update(self.env_extra)
         env = {fsb(k): fsb(v) for k, v in env.items()}      # values may name directories with arbitrary bytes (HOME, TMPDIR)
         cmd = [self.tools.mdsort, '-f', os.path.join(self.root, 'conf')] + self.args
